@@ -14,17 +14,22 @@ modes
 No verdict is computed here: objects and outcomes are projected to JSON (raw fields only).
 
 Vector / event encoding (spec/C02_Ref.tla):
-  prop    ["at",n] Var n:bool | ["sv",n] SVar n:bool | ["imp",p,q] | ["other",digest]
+  prop    ["at",n] Var n:bool | ["sv",n] SVar n:bool | ["imp",p,q] | ["eq",p,q] | ["other",digest]
   sequent {"h":[props],"c":prop}; absent = {"h":[],"c":["none"]}
-  item    {"id":[ints],"rule":str,"arg":prop|["none"],"prevs":[[ints]],"th":sequent,"sub":[items]}
+  item    {"id":[ints],"rule":str,"ak":kind,"arg":prop|["none"],"at":sequent,"prevs":[[ints]],"th":sequent,"sub":[items],
+           "alias":[ints]}
+          ak = kind of the object given as ProofItem.args: none | term (arg) | thm (at: a made-up Thm) | type | inst | tyinst |
+               tuple | name (arg = ["at",name]);  alias = position of the item whose Python OBJECT is reused here ([] = own)
+Theories: the checks never go through the global kernel.theory.thy.  `side` is a Theory built on the side, `snap` a
+  copy(theory.thy) snapshot taken before the global theory went on (it then gets a theorem TX and ANOTHER statement for T1).
 """
 import copy
 import json
 import random
 import sys
 
-from kernel.type import BoolType
-from kernel.term import Term, Var, SVar, Implies, Inst
+from kernel.type import BoolType, TyInst
+from kernel.term import Term, Var, SVar, Implies, Eq, Inst
 from kernel.thm import Thm
 from kernel.proof import Proof, ProofItem, ItemID
 from kernel.proofterm import ProofTerm
@@ -47,6 +52,8 @@ def enc_p(t):
         return ["sv", t.name]
     if t.ty == Term.COMB and t.fun.ty == Term.COMB and t.fun.fun.ty == Term.CONST and t.fun.fun.name == "implies":
         return ["imp", enc_p(t.fun.arg), enc_p(t.arg)]
+    if t.ty == Term.COMB and t.fun.ty == Term.COMB and t.fun.fun.ty == Term.CONST and t.fun.fun.name == "equals":
+        return ["eq", enc_p(t.fun.arg), enc_p(t.arg)]
     return ["other", digest(repr(t))]
 
 
@@ -63,6 +70,8 @@ def dec_p(j):
         return SVar(j[1], BoolType)
     if j[0] == "imp":
         return Implies(dec_p(j[1]), dec_p(j[2]))
+    if j[0] == "eq":
+        return Eq(dec_p(j[1]), dec_p(j[2]))
     raise ValueError("c02 driver: cannot decode %r" % (j,))
 
 
@@ -74,11 +83,19 @@ def dec_s(j):
 
 # ------------------------------------------------------------------------------------------------ theory and macros
 def setup():
-    """EmptyTheory + theorem T1: |- A --> A (get_theorem returns it with schematic variables) + two test macros."""
-    thy = theory.EmptyTheory()
-    A = Var("A", BoolType)
-    thy.add_theorem("T1", Thm(Implies(A, A)))
-    theory.thy = thy
+    """Theories + two test macros.  Returns (side, snap): two Theory objects with the single theorem T1: |- A --> A
+    (get_theorem returns it with schematic variables), NEITHER of which is the global theory when the checks run:
+      side  built on the side from EmptyTheory()
+      snap  copy(theory.thy) taken while the global theory looked the same; afterwards the global theory moves on:
+            it gets a theorem TX: |- B and T1 is replaced by |- A --> B."""
+    A, B = Var("A", BoolType), Var("B", BoolType)
+    side = theory.EmptyTheory()
+    side.add_theorem("T1", Thm(Implies(A, A)))
+    theory.thy = theory.EmptyTheory()
+    theory.thy.add_theorem("T1", Thm(Implies(A, A)))
+    snap = copy.copy(theory.thy)
+    theory.thy.add_theorem("TX", Thm(B))
+    theory.thy.add_theorem("T1", Thm(Implies(A, B)))
     if "verif_id0" not in global_macros:
         @register_macro("verif_id0")
         class VerifId0(Macro):
@@ -107,27 +124,62 @@ def setup():
             def get_proof_term(self, args, pts):
                 assert len(pts) == 0, "verif_gap1"
                 return ProofTerm.sorry(Thm(args))
-    return thy
+    return side, snap
 
 
-def mk_args(rule, arg):
-    if rule in ("assume", "implies_intr", "verif_gap1"):
-        return dec_p(arg)
-    if rule == "substitution":
-        return Inst()
-    if rule == "theorem":
-        return arg[1]
-    return None
+SIG = {"assume": "term", "implies_intr": "term", "reflexive": "term", "beta_conv": "term", "abstraction": "term",
+       "forall_intr": "term", "forall_elim": "term", "verif_gap1": "term", "substitution": "inst", "subst_type": "tyinst",
+       "theorem": "name"}
 
 
-def build_items(js):
-    items = []
+def norm_items(js):
+    """Fill in the fields of the older, shorter item format (argument kind = what the rule's signature asks for)."""
     for j in js:
-        it = ProofItem(tuple(j["id"]), j["rule"], args=mk_args(j["rule"], j["arg"]),
-                       prevs=[tuple(p) for p in j["prevs"]], th=dec_s(j["th"]))
-        if j["rule"] == "subproof":
-            it.subproof = Proof()
-            it.subproof.items = build_items(j["sub"])
+        if "ak" not in j:
+            j["ak"] = SIG.get(j["rule"], "none")
+            if j["ak"] in ("term", "name") and j.get("arg", NONE_P) == NONE_P:
+                j["ak"] = "none"
+        j.setdefault("arg", NONE_P)
+        j.setdefault("at", NONE_S)
+        j.setdefault("alias", [])
+        j.setdefault("sub", [])
+        norm_items(j["sub"])
+    return js
+
+
+def mk_args(j):
+    k = j["ak"]
+    if k == "none":
+        return None
+    if k == "term":
+        return dec_p(j["arg"])
+    if k == "thm":
+        return dec_s(j["at"])
+    if k == "type":
+        return BoolType
+    if k == "inst":
+        return Inst()
+    if k == "tyinst":
+        return TyInst()
+    if k == "tuple":
+        return (dec_p(j["arg"]), dec_p(j["arg"]))
+    if k == "name":
+        return j["arg"][1]
+    raise ValueError("c02 driver: argument kind %r" % (k,))
+
+
+def build_items(js, prefix, objs):
+    items = []
+    for i, j in enumerate(js):
+        pos = prefix + (i,)
+        if j["alias"]:
+            it = objs[tuple(j["alias"])]           # the very same ProofItem object at a second position
+        else:
+            it = ProofItem(tuple(j["id"]), j["rule"], args=mk_args(j), prevs=[tuple(p) for p in j["prevs"]], th=dec_s(j["th"]))
+            if j["rule"] == "subproof":
+                it.subproof = Proof()
+                it.subproof.items = build_items(j["sub"], pos, objs)
+        objs[pos] = it
         items.append(it)
     return items
 
@@ -135,7 +187,7 @@ def build_items(js):
 def build(js):
     """A fresh Proof each time: check_proof assigns sequents in place."""
     prf = Proof()
-    prf.items = build_items(js)
+    prf.items = build_items(js, (), {})
     return prf
 
 
@@ -172,8 +224,7 @@ _ext_n = [0]
 
 def run_extend(base, js, stated_j, with_proof=True):
     thy = copy.copy(base)
-    _ext_n[0] += 1
-    name = "x%d" % _ext_n[0]
+    name = "TX"                    # the name a `theorem TX` step of the supplied proof cites: the extension's own name
     stated = dec_s(stated_j)
     ext = extension.Theorem(name, stated, build(js) if with_proof else None)
     axiom = False
@@ -192,14 +243,22 @@ def run_extend(base, js, stated_j, with_proof=True):
 
 
 # ------------------------------------------------------------------------------------------------ features
+def item(id, rule, arg=NONE_P, prevs=(), th=NONE_S, sub=(), ak=None, at=NONE_S, alias=()):
+    j = {"id": list(id), "rule": rule, "arg": arg, "prevs": [list(p) for p in prevs], "th": th, "sub": list(sub), "at": at,
+         "alias": list(alias)}
+    if ak is not None:
+        j["ak"] = ak
+    return norm_items([j])[0]
+
+
 def features(out_path):
-    thy = setup()
+    side, snap = setup()
+    thy = side
     A = ["at", "A"]
     AA = {"h": [A], "c": A}
-
-    def item(id, rule, arg=NONE_P, prevs=(), th=NONE_S, sub=()):
-        return {"id": list(id), "rule": rule, "arg": arg, "prevs": [list(p) for p in prevs], "th": th, "sub": list(sub)}
+    EAA = {"h": [], "c": ["eq", A, A]}
     acc = lambda js, **kw: run_check(thy, js, **kw)["oc"] == "accepted"
+    x0 = item([0], "assume", A)
     fx = {
         # a correct one-step proof whose identifier is not its position
         "idpos": not acc([item([5], "assume", A)], no_gaps=True),
@@ -211,6 +270,10 @@ def features(out_path):
         "extng": not run_extend(thy, [item([0], "sorry", th=AA)], AA)["installed"],
         # extension whose (correct) proof concludes something else than the statement
         "extcmp": not run_extend(thy, [item([0], "assume", A)], {"h": [A], "c": ["imp", A, A]})["installed"],
+        # a rule without argument is handed a (true) theorem object as args instead of citing it
+        "argsig": not acc([item([0], "reflexive", A), item([1], "symmetric", ak="thm", at=EAA)], no_gaps=True),
+        # the same (correct) item object once more at a position its identifier does not name
+        "posocc": not acc([x0, dict(x0, alias=[0])], no_gaps=True),
     }
     json.dump(fx, open(out_path, "w"))
     print(json.dumps(fx))
@@ -229,25 +292,25 @@ def read_vectors(path):
 
 
 def replay(vec_path, out_path, tid0=0, src="tlc", fx_path=None):
-    thy = setup()
+    side, snap = setup()
     fx = json.load(open(fx_path)) if fx_path else None
     if fx is None:
         raise SystemExit("replay needs the features file")
     n = 0
     with open(out_path, "w") as f:
         for v in read_vectors(vec_path):
-            js = v["prf"]
+            js = norm_items(v["prf"])
             n += 1
             ev = {"tid": tid0 + n, "key": "obj:%s" % digest([js, v["exts"]]), "src": src, "fx": fx, "prf": js}
             if js:
-                ev["ng"] = run_check(thy, js, True)
-                ev["g"] = run_check(thy, js, False, want_ths=True)
-                ev["co"] = {"oc": run_check(thy, js, False, compute_only=True)["oc"]}
-                ev["exts"] = [run_extend(thy, js, s) for s in v["exts"]]
+                ev["ng"] = run_check(side, js, True)
+                ev["g"] = run_check(snap, js, False, want_ths=True)
+                ev["co"] = {"oc": run_check(side, js, False, compute_only=True)["oc"]}
+                ev["exts"] = [run_extend(snap if k % 2 == 0 else side, js, s) for k, s in enumerate(v["exts"])]
             else:                    # an extension offered without proof
                 na = {"oc": "n/a", "final": NONE_S, "gaps": [], "ths": []}
                 ev["ng"], ev["g"], ev["co"] = na, na, {"oc": "n/a"}
-                ev["exts"] = [run_extend(thy, js, s, with_proof=False) for s in v["exts"]]
+                ev["exts"] = [run_extend(snap, js, s, with_proof=False) for s in v["exts"]]
             f.write(json.dumps(ev, separators=(",", ":")) + "\n")
     print("replayed", n, "vectors")
 
@@ -312,6 +375,27 @@ class Gen:
                 rule = r.choice(["substitution", "substitution", "verif_id0"])
                 q, s = r.choice(vis)
                 prevs, th = [q], s
+            elif k < 0.70 and r.random() < 0.5:
+                eqs = [(q, s) for q, s in vis if s["c"][0] == "eq"]
+                m = r.random()
+                if eqs and m < 0.4:
+                    q, s = r.choice(eqs)
+                    rule, prevs, th = "symmetric", [q], _sq(s["h"], ["eq", s["c"][2], s["c"][1]])
+                elif eqs and m < 0.6 and [x for x in vis if x[1]["c"] == r.choice(eqs)[1]["c"][1]]:
+                    q1, s1 = r.choice(eqs)
+                    cands = [(q, s) for q, s in vis if s["c"] == s1["c"][1]]
+                    if cands:
+                        q2, s2 = r.choice(cands)
+                        rule, prevs, th = "equal_elim", [q1, q2], _sq(s1["h"] + s2["h"], s1["c"][2])
+                    else:
+                        rule, arg = "reflexive", self.prop(1)
+                        th = _sq([], ["eq", arg, arg])
+                elif m < 0.8:
+                    rule, arg = "reflexive", self.prop(1)
+                    th = _sq([], ["eq", arg, arg])
+                else:
+                    q, s = r.choice(vis)
+                    rule, prevs, th = "subst_type", [q], s
             elif k < 0.73:
                 rule, arg, th = "theorem", ["at", "T1"], _sq([], ["imp", ["sv", "A"], ["sv", "A"]])
             elif k < 0.78:
@@ -446,6 +530,73 @@ class Gen:
                 it["rule"] = r.choice(["substitution", "implies_intr", "verif_id0"])
                 it["arg"] = A_ if it["rule"] == "implies_intr" else NONE_P
 
+    PRIM0 = ("implies_elim", "symmetric", "transitive", "equal_intr", "equal_elim", "combination")
+
+    def damage_args(self, top):
+        """The argument object of a step is of a kind its rule does not take; in particular a made-up theorem object in the
+        place of a citation."""
+        r = self.rnd
+        flat = [x for x in self.all_items(top) if x["rule"] not in ("", "sorry", "subproof") and not x.get("alias")]
+        if not flat:
+            return
+        byid = {tuple(x["id"]): x for x in self.all_items(top)}
+        cands = [x for x in flat if x["rule"] in self.PRIM0 and x["prevs"]]
+        if cands and r.random() < 0.6:
+            x = r.choice(cands)
+            q = x["prevs"].pop(0)                       # the first premise is no longer cited ...
+            src = byid.get(tuple(q))
+            at = src["th"] if src is not None and src["th"]["c"] != NONE_P else _sq([], self.prop(1))
+            if r.random() < 0.4:
+                at = _sq([], at["c"])                   # ... but asserted by a theorem object nobody verified
+            x["ak"], x["at"], x["arg"] = "thm", at, NONE_P
+        else:
+            x = r.choice(flat)
+            x["ak"] = r.choice(["none", "term", "thm", "type", "inst", "tyinst", "tuple", "name"])
+            x["arg"] = ["at", "T1"] if x["ak"] == "name" else (A_ if x["ak"] in ("term", "tuple") else NONE_P)
+            x["at"] = _sq([], self.prop(1)) if x["ak"] == "thm" else NONE_S
+
+    def damage_arity(self, top):
+        r = self.rnd
+        flat = [x for x in self.all_items(top) if x["rule"] not in ("", "sorry", "subproof") and not x.get("alias")]
+        if flat:
+            x = r.choice(flat)
+            if x["prevs"] and r.random() < 0.5:
+                x["prevs"].pop(r.randrange(len(x["prevs"])))
+            else:
+                ids = [y["id"] for y in self.all_items(top)]
+                x["prevs"].append(list(r.choice(x["prevs"]) if x["prevs"] and r.random() < 0.5 else r.choice(ids)))
+
+    def damage_again(self, top, alias):
+        """An item is placed once more at the end of its list: the same OBJECT (alias) or an equal twin.  Half of the time
+        the item is prepared the circular way: it carries the identifier of the second place and cites itself or a later item."""
+        r = self.rnd
+        where = [(x, px, anc) for x, px, anc in self.with_pos(top, []) if x["rule"] != "subproof" and not x.get("alias")]
+        if not where:
+            return
+        x, px, anc = r.choice(where)
+        lst = anc[-1]["sub"] if anc else top
+        if r.random() < 0.5 and x["prevs"]:
+            x["id"] = px[:-1] + [len(lst)]
+            x["prevs"][r.randrange(len(x["prevs"]))] = px[:-1] + [r.randrange(px[-1], len(lst))]
+            if x["th"]["c"] == NONE_P:
+                x["th"] = _sq([], self.prop(1))
+        y = copy.deepcopy(x)
+        if alias:
+            y["alias"] = list(px)
+        lst.append(y)
+
+    def sync_alias(self, top):
+        """An aliased entry IS the original object: its record must show what the original shows."""
+        bypos = {tuple(px): x for x, px, _ in self.with_pos(top, [])}
+        for x, px, _ in self.with_pos(top, []):
+            if x.get("alias"):
+                o = bypos[tuple(x["alias"])]
+                for f in ("id", "rule", "ak", "arg", "at", "prevs", "th"):
+                    if f in o:
+                        x[f] = copy.deepcopy(o[f])
+                    else:
+                        x.pop(f, None)
+
     def vector(self):
         r = self.rnd
         n = r.randint(2, 12) if r.random() < 0.8 else r.randint(1, 3)
@@ -453,6 +604,17 @@ class Gen:
         nd = r.choice([0, 0, 1, 1, 1, 2, 2, 3])
         for _ in range(nd):
             self.damage(top)
+        norm_items(top)
+        if r.random() < 0.15:
+            self.damage_args(top)
+        if r.random() < 0.07:
+            self.damage_arity(top)
+        k = r.random()
+        if k < 0.10:
+            self.damage_again(top, alias=True)
+        elif k < 0.15:
+            self.damage_again(top, alias=False)
+        self.sync_alias(top)
         exts = []
         last = seqs[-1]
         if last is not None:
